@@ -26,7 +26,10 @@ SEED_CHECKS = {'C01-a': ['C01', 'C12'], 'C12-a': ['C12'], 'C13-a': ['C13'], 'C05
                'C16-c': ['C16'], 'C17-e': ['C17', 'C02'], 'C18-e': ['C18', 'C05'],
                'C01-f': ['C01', 'C16'], 'C02-f': ['C02', 'C08'], 'C03-f': ['C03'], 'C04-f': ['C04'], 'C05-f': ['C05'], 'C06-f': ['C06'], 'C07-f': ['C07'],
                'C08-f': ['C08', 'C10'], 'C09-f': ['C09'], 'C10-f': ['C10'], 'C11-f': ['C11'], 'C12-f': ['C12'], 'C13-f': ['C13'], 'C15-f': ['C15'], 'C16-d': ['C16'],
-               'C17-f': ['C17'], 'C18-f': ['C18']}
+               'C17-f': ['C17'], 'C18-f': ['C18'],
+               'C01-g': ['C01', 'C13'], 'C02-g': ['C02'], 'C03-g': ['C03'], 'C05-g': ['C05'], 'C06-g': ['C06'], 'C07-g': ['C07'], 'C08-g': ['C08'],
+               'C09-g': ['C09'], 'C10-g': ['C10'], 'C11-g': ['C11'], 'C12-g': ['C12'], 'C13-g': ['C13'], 'C15-g': ['C15'], 'C16-e': ['C16', 'C18'],
+               'C17-g': ['C17', 'C02'], 'C18-g': ['C18', 'C16']}
 
 
 def run(pid):
